@@ -745,6 +745,12 @@ func (n *ExtendsNode) Render(w io.Writer, ctx *RenderContext) error {
 	for name, macro := range ctx.macros {
 		parentCtx.SetMacro(name, macro)
 	}
+	for name, lib := range ctx.macroLibs {
+		if parentCtx.macroLibs == nil {
+			parentCtx.macroLibs = map[string]map[string]Node{}
+		}
+		parentCtx.macroLibs[name] = lib
+	}
 
 	// Ensure the context is released even if an error occurs
 	defer parentCtx.Release()
@@ -1381,8 +1387,17 @@ func (n *FromImportNode) Render(w io.Writer, ctx *RenderContext) error {
 			return fmt.Errorf("macro '%s' not found in template '%s'", macroName, templateName)
 		}
 
-		// Set the macro in the current context
+		// Set the macro in the current context, and remember its library
+		// (its body may call the other macros of the template it comes from)
 		ctx.macros[targetName] = macro
+		if ctx.macroLibs == nil {
+			ctx.macroLibs = map[string]map[string]Node{}
+		}
+		lib := make(map[string]Node, len(importCtx.macros))
+		for name, m := range importCtx.macros {
+			lib[name] = m
+		}
+		ctx.macroLibs[targetName] = lib
 	}
 
 	return nil
